@@ -65,7 +65,18 @@ func replayFrameCases(t *testing.T, r *vf.Rec, check func(entry string, frame []
 		if entry == "" || len(entry) > 4 && entry[:4] == "Fuzz" {
 			entry = "ReadPacket"
 		}
+		var sent *sentinels
+		if c.Note == "sentinel" {
+			sent = newSentinels()
+		}
+		hist := replayHistory(c.History)
 		_, _, msg := check(entry, c.Frame)
+		if sent != nil && msg == "" {
+			msg = sent.check()
+		}
+		if msg == "" {
+			msg = hist.check()
+		}
 		r.Case(vf.FPs("replay", entry, string(c.Frame)), true, "replay", func() interface{} { return c })
 		if msg != "" {
 			r.FailReplay(rf, "%s", msg)
